@@ -1,3 +1,54 @@
-(* C09 - placeholder (DESIGN.md 7 C09). *)
-From DL Require Import Base Context.
-Example C09_placeholder : True. Proof. exact I. Qed.
+(* C09 - contexts are isolated: no dependence on history, siblings, decoration order, nesting or threads.
+   World.v models what outlives a call: the annotation objects shared through aliases and the mappings owned by
+   scope providers.  For the repaired code (`current`: the optional flag goes onto a copy, the provider's mapping
+   is copied) and EVERY history of decorations, provider updates and calls:
+   - [C09_history_isolated]: the outcome of each call is what the call decides alone from the annotations as
+     written, its arguments and the provider's value at that moment; the aliases are never modified and the
+     provider mappings only by the explicit updates (checking never modifies caller-visible state);
+   - [C09_calls_commute]: a history of calls only - any interleaving of the calls of any number of threads, given
+     that a call is one step of this model - gives each call the outcome it has alone;
+   - [C09_decoration_order]: decorations do not change the world.
+   For the code as it was (`legacy`) both channels are refuted by concrete two- and three-step histories.
+   Atomicity of a call with respect to other threads (the wrapper reads the provider once and then works on local
+   state only) is a property of the code's structure that the thread runs of harness/props/c09.py test; GIL
+   scheduling itself cannot be exhibited by the model.  A nested checked call is an ordinary call inside the body
+   oracle: it has its own context by construction of [run_call]. *)
+From DL Require Import Base Lexer Parser Eval Shape Dtypes Check Context Hints Call World WorldProofs.
+
+Theorem C09_history_isolated : forall h w,
+  run_history current w h =
+  ({| aliases := aliases w; providers := apply_sets (providers w) h |}, expected_outcomes (aliases w) (providers w) h).
+Proof. exact history_isolated. Qed.
+Theorem C09_calls_commute : forall h w, forallb is_call h = true ->
+  snd (run_history current w h) = map (fun o => snd (step current w o)) h.
+Proof. exact calls_commute. Qed.
+Theorem C09_decoration_order : forall ds w, (forall o, In o ds -> exists f, o = Decorate f) ->
+  fst (run_history current w ds) = w.
+Proof. exact decorations_irrelevant. Qed.
+
+(* ---- the code as it was ---- *)
+Definition T_ab : annot :=
+  match parse_shape "a b" with Ok ty => {| a_ty := ty; a_dtypes := []; a_opt := false |} | Err _ => {| a_ty := scalar_type; a_dtypes := []; a_opt := false |} end.
+Definition g_opt : wfn := {| wf_params := [("x", "T", true)]; wf_provider := None |}.     (* def g(x: T | None) *)
+Definition h_req : wfn := {| wf_params := [("x", "T", false)]; wf_provider := None |}.    (* def h(x: T) *)
+Definition w0 : world := {| aliases := [("T", T_ab)]; providers := [("P", [])] |}.
+Definition arr2 (l:list Z) : value := VArr {| x_lib := LNumpy; x_dt := KF32; x_shape := l |}.
+(* decorating h after g makes g(None) fail, although g is written with `| None` *)
+Example C09_legacy_alias_flag_refuted :
+  snd (run_history legacy w0 [Decorate g_opt; Decorate h_req; CallOp g_opt [("x", VNone)]]) = [None; None; Some (CRejected EUnsupported)] /\
+  snd (run_history legacy w0 [Decorate h_req; Decorate g_opt; CallOp g_opt [("x", VNone)]]) = [None; None; Some (CReturned VNone)] /\
+  snd (run_history current w0 [Decorate g_opt; Decorate h_req; CallOp g_opt [("x", VNone)]]) = [None; None; Some (CReturned VNone)].
+Proof. vm_compute. repeat split; reflexivity. Qed.
+(* a long-lived provider dict keeps the bindings of the previous call *)
+Definition f_prov : wfn := {| wf_params := [("x", "T", false)]; wf_provider := Some "P" |}.
+Example C09_legacy_provider_dict_refuted :
+  snd (run_history legacy w0 [CallOp f_prov [("x", arr2 [2;3]%Z)]; CallOp f_prov [("x", arr2 [5;3]%Z)]])
+    = [Some (CReturned VNone); Some (CRejected (EShape "x" 0 2%Z 5%Z))] /\
+  snd (run_history current w0 [CallOp f_prov [("x", arr2 [2;3]%Z)]; CallOp f_prov [("x", arr2 [5;3]%Z)]])
+    = [Some (CReturned VNone); Some (CReturned VNone)] /\
+  providers (fst (run_history legacy w0 [CallOp f_prov [("x", arr2 [2;3]%Z)]])) = [("P", [("a", 2%Z); ("b", 3%Z)])] /\
+  providers (fst (run_history current w0 [CallOp f_prov [("x", arr2 [2;3]%Z)]])) = [("P", [])].
+Proof. vm_compute. repeat split; reflexivity. Qed.
+
+Redirect "C09.assumptions.1" Print Assumptions C09_history_isolated.
+Redirect "C09.assumptions.2" Print Assumptions C09_calls_commute.
